@@ -335,6 +335,9 @@ var naturalCauses = []string{
 	"action-without-controller", "protocol-without-controller", "paused-protocol-without-controller",
 	// the bank's send switch of the denomination is off: a bank MsgSend (the internal route) is refused
 	"send-disabled-denom",
+	// the packet carries a coin that is not a Noble-native coin on its way back: the orbiter cannot
+	// act on it, the sender must be refunded
+	"non-native-coin",
 	// not a failure of the transfer: the one documented exception. The statistics of the route
 	// cannot be recorded (counter saturated by a valid genesis); the transfer itself must still
 	// be complete.
@@ -381,6 +384,9 @@ func applyCause(w *world.World, ctx sdk.Context, c *caseC03Natural) error {
 		t.Route = kit.Route{Kind: "hyp", Domain: 1, TokenID: w.HypToken[world.Ufoo], Recipient: kit.Fill32(2)}
 	case "blocked-internal-recipient":
 		t.Route = kit.Route{Kind: "internal", To: world.DustAddr.String()}
+	case "non-native-coin":
+		d := []string{"uatom", "transfer/channel-99/uatom", world.ReturnDenom(t.Channel, "transfer/channel-5/uusdc")}[t.Channel%3]
+		t.RawDenom = &d
 	case "send-disabled-denom":
 		t.Route = kit.Route{Kind: "internal", To: world.Addr("bob").String()}
 		return env(kit.Env{Kind: "send_disable", Denom: t.Denom})
@@ -449,7 +455,7 @@ func runC03Natural(w *world.World, c caseC03Natural, rec *kit.Recorder) error {
 		switch c.Cause {
 		case "blocked-internal-recipient", "above-burn-limit", "cctp-unknown-domain", "cctp-burning-paused",
 			"hyp-unknown-domain", "hyp-unknown-token", "escrow-short", "receive-disabled",
-			"action-without-controller", "protocol-without-controller", "paused-protocol-without-controller", "send-disabled-denom":
+			"action-without-controller", "protocol-without-controller", "paused-protocol-without-controller", "send-disabled-denom", "non-native-coin":
 			strict = true
 		case "hyp-token-of-other-denom":
 			strict = c.Transfer.Denom != world.Ufoo // the token named is ufoo's own
